@@ -27,7 +27,7 @@ from ..tlc import MachineryError, run_tlc
 from ..traces import validate
 
 OBSERVERS = ["FullText", "Units", "UnitDeep", "Images", "ImageBytes", "Tables", "Metadata", "ToJson"]
-RICH_FORMATS = ["docx", "odt", "html", "mhtml", "epub", "rtf", "pptx", "odp", "odg", "xlsx", "ods", "xls", "odf", "pdf",
+RICH_FORMATS = ["docx", "odt", "html", "mhtml", "epub", "rtf", "pptx", "ppt", "odp", "odg", "xlsx", "ods", "xls", "odf", "pdf",
                 "txt", "md", "csv", "tsv", "json"]
 SKIP_FIXTURE_PARTS = ("password", "protected", "encrypted")
 
@@ -97,11 +97,19 @@ def _load(doc):
     return fn, data, name
 
 
+def _same(buf, data) -> bool:
+    """The caller's buffer still holds what it held (a buffer the library closed holds nothing any more)."""
+    try:
+        return buf.getvalue() == data
+    except ValueError:
+        return False
+
+
 def _extract(doc):
     fn, data, name = _load(doc)
     buf = io.BytesIO(data)
     results = list(fn(buf, name))
-    return results, buf.getvalue() == data
+    return results, _same(buf, data)
 
 
 def _history_job(job):
@@ -151,7 +159,7 @@ def _purity_job(doc):
                 pass
         except Exception:
             pass
-        out.append((tag, buf.getvalue() == blob))
+        out.append((tag, _same(buf, blob)))
     return {"purity": out}
 
 
@@ -229,6 +237,35 @@ def run(ctx):
     for sl in plain["slides"]:
         sl["comments"] = []
     docs.append({"id": "gen:pptx-plain", "fmt": "pptx", "data": render(plain, "pptx"), "type": "pptx"})
+    # workbooks / documents whose core properties name who modified them last but store no dates (or only one of them):
+    # a result must not contain the time of the extraction
+    for f in ("xlsx", "docx", "pptx"):
+        for tag, extra in (("nodates", {"last_modified_by": "Re Viewer"}),
+                           ("createdonly", {"last_modified_by": "Re Viewer", "created": "2024-01-02T03:04:05Z"}),
+                           ("modifiedonly", {"modified": "2024-01-02T03:04:05Z"})):
+            dd = rich_doc(f, ctx.seed)
+            dd["props"] = dict(dd.get("props") or {}, **extra)
+            docs.append({"id": f"gen:{f}-{tag}", "fmt": f, "data": render(dd, f), "type": f})
+    # a 7z archive (own minimal writer of the C10 machinery): the library reads it through its own 7z reader
+    from ..c10_sevenz import write_7z
+    from ..docmodel import word
+    sz, _ = write_7z([{"name": "a.txt", "kind": "file", "data": (word(1) + " first\n").encode()},
+                      {"name": "d/b.md", "kind": "file", "data": ("# " + word(2) + "\n").encode()},
+                      {"name": "c.csv", "kind": "file", "data": (word(3) + "," + word(4) + "\n").encode()}], [[0, 1], [2]])
+    docs.append({"id": "gen:7z", "fmt": "7z", "data": sz, "type": "7z"})
+    import tarfile, zipfile
+    zb = io.BytesIO()
+    with zipfile.ZipFile(zb, "w", zipfile.ZIP_DEFLATED) as z:
+        z.writestr("a.txt", word(1) + " first\n")
+        z.writestr("d/b.docx", render(rich_doc("docx", ctx.seed), "docx"))
+    docs.append({"id": "gen:zip", "fmt": "zip", "data": zb.getvalue(), "type": "zip"})
+    tb = io.BytesIO()
+    with tarfile.open(fileobj=tb, mode="w:gz") as t:
+        for nm, payload in (("a.txt", (word(1) + " first\n").encode()), ("d/b.md", ("# " + word(2) + "\n").encode())):
+            ti = tarfile.TarInfo(nm)
+            ti.size = len(payload)
+            t.addfile(ti, io.BytesIO(payload))
+    docs.append({"id": "gen:tgz", "fmt": "tgz", "data": tb.getvalue(), "type": "tgz"})
     fixtures = _fixtures()
     if not ctx.thorough:
         rng.shuffle(fixtures)
